@@ -208,6 +208,8 @@ def parse_operand(text):
         return parse_operand(t[len("no_retag "):])
     if t.startswith("const "):
         body = t[6:].strip()
+        # pattern-type constants (`const 2_u64 is 1..`, the payload of NonZero<u64>): the value is the integer
+        body = re.sub(r"^(-?\d+_\w+) is [^ ]+$", r"\1", body)
         m = re.fullmatch(r"(-?\d+)_(\w+)", body)
         if m:
             return ("const", m.group(1), m.group(2))
